@@ -39,7 +39,15 @@ def opC12Camel (j : Json) : Except String Json := do
   let s ← getStrL j "s"
   pure (Json.mkObj [("r", jstr (toCamelCase s)), ("json_name", jstr (toJsonName s))])
 
+open Model.Names in
+def opC12Alias (j : Json) : Except String Json := do
+  let svc ← (← getArrL j "names").mapM fun v => v.getStr?
+  let sigs ← (← getArrL j "fields").mapM fun v => do (← v.getArr?).toList.mapM fun x => x.getStr?
+  let m ← (← j.getObjVal? "module").getStr?
+  pure (Json.mkObj [("aliased", Json.bool (isAliased (methodCollisions svc sigs) m)),
+                    ("collisions", jarr ((methodCollisions svc sigs).map Json.str))])
+
 def opsC12 : List (String × (Json → Except String Json)) :=
-  [("c12.names", opC12Names), ("c12.path", opC12Path), ("c12.file", opC12File), ("c12.snake", opC12Snake), ("c12.camel", opC12Camel)]
+  [("c12.names", opC12Names), ("c12.path", opC12Path), ("c12.file", opC12File), ("c12.snake", opC12Snake), ("c12.camel", opC12Camel), ("c12.alias", opC12Alias)]
 
 end GapicModel.Driver
